@@ -287,29 +287,20 @@ def gen_case(rng, nops, version):
             if dep is None:
                 n = rng.choice(LENS)
                 m = n if rng.chance(70) else (rng.below(n + 1) if rng.chance(90) else n + 1)
-                # the library numbers depth names by the count of depth groups; when that name is taken the add is refused
+                # the library numbers depth names from the count of depth groups, skipping names in use
                 k = sum(1 for p in led.holes[h]["pgs"] if led.depth_of(p) is not None)
-                taken = (10 + k) in led.names(h)
-                if taken and not rng.chance(25):
-                    continue
+                while (10 + k) in led.names(h):
+                    k += 1
                 op = {"op": "add_data", "h": h, "pg": pgname, "name": name, "pgid": fresh(), "depid": fresh(), "did": fresh(),
                       "depth": [1000 * (pgname + 1) + i for i in range(n)], "vals": _vals(rng, m, 0)}
                 if rng.chance(4):
                     op["depth"] = None  # no depth and nothing to take it from
-                if taken and led.expected_error(op) is None:
-                    # known defect: the add is refused and leaves the (new) group empty; keep the generator's picture in step
-                    ops.append(op)
-                    led.apply({"op": "add_pg", "h": h, "pg": pgname, "pgid": op["pgid"]})
-                    continue
                 emit(op)
                 if op["depid"] in led.data and led.data[op["depid"]]["name"] is None:
                     led.data[op["depid"]]["name"] = 10 + k   # the name the library will pick (generator-side prediction only)
             else:
                 n = len(led.data[dep]["vals"])
                 m = n if rng.chance(65) else (rng.below(n + 1) if rng.chance(85) else n + 1)
-                earlier = led.holes[h]["pgs"][: led.holes[h]["pgs"].index(pg)]
-                if any(led.depth_of(p) is not None and led.data[led.depth_of(p)]["vals"] == led.data[dep]["vals"] for p in earlier):
-                    continue  # known defect: the data would land in the earlier, collocated group (corpus witness only)
                 emit({"op": "add_data", "h": h, "pg": pgname, "name": name, "pgid": fresh(), "depid": fresh(), "did": fresh(),
                       "depth": None, "vals": _vals(rng, m, 0)})
         elif kind == "set_values" and datas:
